@@ -10358,13 +10358,13 @@ class TensorDictBase(MutableMapping):
         """
         keys, vals = self._items_list(True, True)
         if _is_tensor_collection(type(end)):
-            end_val = end._values_list(True, True)
+            _, end_val = end._items_list(True, True, sorting_keys=keys)
         else:
             end_val = end
         if isinstance(weight, (float, torch.Tensor)):
             weight_val = weight
         elif _is_tensor_collection(type(weight)):
-            weight_val = weight._values_list(True, True)
+            _, weight_val = weight._items_list(True, True, sorting_keys=keys)
         else:
             weight_val = weight
         vals = torch._foreach_lerp(vals, end_val, weight_val)
@@ -10387,17 +10387,18 @@ class TensorDictBase(MutableMapping):
         weight: TensorDictBase | torch.Tensor | float,
     ):
         """In-place version of :meth:`~.lerp`."""
+        keys, vals = self._items_list(True, True)
         if _is_tensor_collection(type(end)):
-            end_val = end._values_list(True, True)
+            _, end_val = end._items_list(True, True, sorting_keys=keys)
         else:
             end_val = end
         if isinstance(weight, (float, torch.Tensor)):
             weight_val = weight
         elif _is_tensor_collection(type(weight)):
-            weight_val = weight._values_list(True, True)
+            _, weight_val = weight._items_list(True, True, sorting_keys=keys)
         else:
             weight_val = weight
-        torch._foreach_lerp_(self._values_list(True, True), end_val, weight_val)
+        torch._foreach_lerp_(vals, end_val, weight_val)
         return self
 
     @_maybe_broadcast_other("addcdiv", 2)
@@ -10427,11 +10428,11 @@ class TensorDictBase(MutableMapping):
         """
         keys, vals = self._items_list(True, True)
         if _is_tensor_collection(type(other1)):
-            other1_val = other1._values_list(True, True)
+            _, other1_val = other1._items_list(True, True, sorting_keys=keys)
         else:
             other1_val = other1
         if _is_tensor_collection(type(other2)):
-            other2_val = other2._values_list(True, True)
+            _, other2_val = other2._items_list(True, True, sorting_keys=keys)
         else:
             other2_val = other2
         vals = torch._foreach_addcdiv(vals, other1_val, other2_val, value=value)
@@ -10450,17 +10451,16 @@ class TensorDictBase(MutableMapping):
 
     def addcdiv_(self, other1, other2, *, value: float | None = 1):
         """The in-place version of :meth:`~.addcdiv`."""
+        keys, vals = self._items_list(True, True)
         if _is_tensor_collection(type(other1)):
-            other1_val = other1._values_list(True, True)
+            _, other1_val = other1._items_list(True, True, sorting_keys=keys)
         else:
             other1_val = other1
         if _is_tensor_collection(type(other2)):
-            other2_val = other2._values_list(True, True)
+            _, other2_val = other2._items_list(True, True, sorting_keys=keys)
         else:
             other2_val = other2
-        torch._foreach_addcdiv_(
-            self._values_list(True, True), other1_val, other2_val, value=value
-        )
+        torch._foreach_addcdiv_(vals, other1_val, other2_val, value=value)
         return self
 
     @_maybe_broadcast_other("addcmul", 2)
@@ -10491,11 +10491,11 @@ class TensorDictBase(MutableMapping):
         """
         keys, vals = self._items_list(True, True)
         if _is_tensor_collection(type(other1)):
-            other1_val = other1._values_list(True, True)
+            _, other1_val = other1._items_list(True, True, sorting_keys=keys)
         else:
             other1_val = other1
         if _is_tensor_collection(type(other2)):
-            other2_val = other2._values_list(True, True)
+            _, other2_val = other2._items_list(True, True, sorting_keys=keys)
         else:
             other2_val = other2
         vals = torch._foreach_addcmul(vals, other1_val, other2_val, value=value)
@@ -10514,17 +10514,16 @@ class TensorDictBase(MutableMapping):
 
     def addcmul_(self, other1, other2, *, value: float | None = 1):
         """The in-place version of :meth:`~.addcmul`."""
+        keys, vals = self._items_list(True, True)
         if _is_tensor_collection(type(other1)):
-            other1_val = other1._values_list(True, True)
+            _, other1_val = other1._items_list(True, True, sorting_keys=keys)
         else:
             other1_val = other1
         if _is_tensor_collection(type(other2)):
-            other2_val = other2._values_list(True, True)
+            _, other2_val = other2._items_list(True, True, sorting_keys=keys)
         else:
             other2_val = other2
-        torch._foreach_addcmul_(
-            self._values_list(True, True), other1_val, other2_val, value=value
-        )
+        torch._foreach_addcmul_(vals, other1_val, other2_val, value=value)
         return self
 
     @_maybe_broadcast_other("sub")
